@@ -12,11 +12,17 @@
     mkreply <7 fields> <hex body>           -> <hex frame>
     sums <hex frame>                        -> <sum8 take 3> <sum8 drop 3>
 
+    wrap <hex innermost> <layer>*           -> <hex frame>   (Spec.Bridges.wrapLayer, outermost first;
+                                               layer = rsSa,rsLun,netfn,rqSa,rqLun,seq,cmd,cc)
+  Transport (Model/Bridge.lean: the loop body of Rmcp._send_and_receive, which may unwrap before it filters):
+    cls <variant a|r> <bridge -|seq> <7 fields> <flags> <hex frame> -> ack | hit <hex> | noise | err <error tag>
+
   flags = five characters 0/1 in the order rq_sa rs_sa rq_lun rs_lun rq_seq.
 -/
 import PyIpmi.Base.Proto
-import PyIpmi.Model.Ipmb
-open PyIpmi PyIpmi.Proto PyIpmi.Ipmb PyIpmi.Spec.Wire
+import PyIpmi.Model.Bridge
+import PyIpmi.Spec.Bridges
+open PyIpmi PyIpmi.Proto PyIpmi.Ipmb PyIpmi.Bridge PyIpmi.Spec.Wire PyIpmi.Spec.Bridges
 
 def parseHdr (ts : List String) : Option Hdr :=
   match ts.mapM String.toNat? with
@@ -38,6 +44,24 @@ def showHdr (h : Hdr) : String :=
 def showBytes : Outcome (List Nat) → String
   | .ok bs => "ok " ++ toHex bs
   | e => e.tag
+
+def parseLayer3 (s : String) : Option (Hdr × Nat) :=
+  match (s.splitOn ",").mapM String.toNat? with
+  | some [a, b, c, d, e, f, g, cc] =>
+    some ({ rsSa := a, rsLun := b, netfn := c, rqSa := d, rqLun := e, seq := f, cmd := g }, cc)
+  | _ => none
+
+def parseVariant3 (s : String) : Option Variant :=
+  if s == "a" then some .asShipped else if s == "r" then some .repaired else none
+
+def parseBridge3 (s : String) : Option (Option Hdr) :=
+  if s == "-" then some none else s.toNat?.map fun n => some (bridgeHdr n)
+
+def showClass3 : RxClass → String
+  | .ack => "ack"
+  | .hit d => "hit " ++ toHex d
+  | .noise => "noise"
+  | .err e => "err " ++ e.tag
 
 def handleC03 (line : String) : String :=
   match tokens line with
@@ -76,6 +100,14 @@ def handleC03 (line : String) : String :=
     match parseHdr [a, b, c, d, e, f, g], ofHex hx with
     | some h, some body => toHex (mkReply h body)
     | _, _ => "bad-op"
+  | "wrap" :: hx :: layers =>
+    match ofHex hx, layers.mapM parseLayer3 with
+    | some r, some ls => toHex (ls.foldr (fun (p : Hdr × Nat) acc => wrapLayer p.1 p.2 acc) r)
+    | _, _ => "bad-op"
+  | ["cls", v, br, a, b, c, d, e, f, g, fl, hx] =>
+    match parseVariant3 v, parseBridge3 br, parseHdr [a, b, c, d, e, f, g], parseFlags fl, ofHex hx with
+    | some v, some br, some h, some fl, some fr => showClass3 (classifyRx v br h fl fr)
+    | _, _, _, _, _ => "bad-op"
   | ["sums", hx] =>
     match ofHex hx with
     | some fr => s!"{sum8 (fr.take 3)} {sum8 (fr.drop 3)}"
